@@ -200,6 +200,42 @@ Proof.
   - vm_compute. reflexivity.
 Qed.
 
+(** A relaying component with its own units on BOTH sides between a generator in [s] and a
+    consumer in [d]: input declared in [m], output declared in [o]; it publishes [g] times the pulled
+    magnitudes as a quantity labelled [m] (TimeTrigger with in_info and out_info, g = 1) or as plain
+    numbers meant in [o] ([bare]).  Refused with FinamMetaDataError when a link joins different
+    dimensions, with FinamDataError when the labelled payload does not fit the output's units;
+    otherwise the consumer receives, labelled [d], the dimensional-analysis conversion of
+    g * convert s m x  from [m] (labelled payload) resp. [o] (plain numbers) to [d]. *)
+Theorem C17_relay :
+  (forall Un s m o d bare g x,
+     faithful Un -> (forall u, In u Un -> wf (uu u)) -> offsets_ok Un ->
+     In s Un -> In m Un -> In o Un -> In d Un ->
+     compatible (uu s) (uu m) = true -> compatible (uu o) (uu d) = true ->
+     (bare = false -> compatible (uu m) (uu o) = true) ->
+     exists us cs xs cv z, p_relay s m o d bare g x = RLink us cs xs (cid d) cv z
+       /\ z == convert (uu (if bare then o else m)) (uu d) (g * convert (uu s) (uu m) x))
+  /\ (forall Un s m o d bare g x,
+     faithful Un -> (forall u, In u Un -> wf (uu u)) -> offsets_ok Un ->
+     In s Un -> In m Un -> In o Un -> In d Un ->
+     (compatible (uu s) (uu m) = false \/ compatible (uu o) (uu d) = false ->
+        p_relay s m o d bare g x = RErr ErrMeta)
+     /\ (compatible (uu s) (uu m) = true -> compatible (uu o) (uu d) = true ->
+         bare = false -> compatible (uu m) (uu o) = false ->
+         p_relay s m o d bare g x = RErr ErrData)).
+Proof. exact (conj relay_exact relay_refuse). Qed.
+
+(* m -> TimeTrigger(In mm, Out km) -> cm: 1.5 m arrives as 150 cm; In mm / Out s refused *)
+Example C17_relay_nonvacuous :
+  (exists us cs xs cv z, fst (step [] (Relay (U 0) (U 3) (U 2) (U 4) false 1 (15#10))) = RLink us cs xs 3 cv z
+        /\ z == 150)
+  /\ fst (step [] (Relay (U 0) (U 3) (U 6) (U 6) false 1 1)) = RErr ErrData
+  /\ fst (step [] (Relay (U 0) (U 3) (U 2) (U 6) true 2 1)) = RErr ErrMeta.
+Proof.
+  split; [|split; vm_compute; reflexivity].
+  vm_compute. do 5 eexists. split; reflexivity.
+Qed.
+
 (** Non-vacuity. *)
 (* a session on the catalogue with repeated / reversed pairs, a clear, a relabel, offsets, a
    refused link; memoised answers = pure answers, and they are not all trivial *)
@@ -259,3 +295,4 @@ Print Assumptions C17_convert_commutes_mask.
 Print Assumptions C17_repeated_reads.
 Print Assumptions C17_adapter_link.
 Print Assumptions C17_fill_and_chain.
+Print Assumptions C17_relay.
